@@ -1,2 +1,17 @@
 import TransportVerif.Props.C01
-#print axioms TV.Props.C01.placeholder
+import TransportVerif.Props.C01Reply
+#print axioms TV.Props.C01.accounting
+#print axioms TV.Props.C01.delivered_at_most_once
+#print axioms TV.Props.C01.nothing_missing_at_rest
+#print axioms TV.Props.C01.payload_intact
+#print axioms TV.Props.C01.only_bound_socket
+#print axioms TV.Props.C01.deliver_target
+#print axioms TV.Props.C01.inbox_is_suffix
+#print axioms TV.Props.C01.read_takes_next
+#print axioms TV.Props.C01.flow_fifo_partial
+#print axioms TV.Props.C01.push_keeps
+#print axioms TV.Props.C01.deliver_keeps
+#print axioms TV.Props.C01.route_pops_head
+#print axioms TV.Props.C01Reply.reply_reaches_sender
+#print axioms TV.Props.C01Reply.reply_within_lifetime
+#print axioms TV.Props.C01Reply.reply_reaches_sender_one2one
